@@ -38,15 +38,16 @@ type Obs struct {
 
 // Step is one step of a behaviour.
 type Step struct {
-	Op  string   `json:"op"` // Add | Remove | ReplaceAll | MarkBegin | MarkEnd
-	A   int      `json:"a"`
-	T   string   `json:"t"`
-	O   int      `json:"o"` // object id (0: a fresh object nobody else holds)
-	K   string   `json:"k"` // healthy | unhealthy
-	F   []string `json:"f"` // ReplaceAll: per address "none" | "main" | "backup"
-	Win []string `json:"win"`
-	Ret bool     `json:"ret"`
-	Obs Obs      `json:"obs"`
+	Op    string   `json:"op"` // Add | Remove | ReplaceAll | MarkBegin | MarkEnd
+	A     int      `json:"a"`
+	T     string   `json:"t"`
+	O     int      `json:"o"`     // object id (0: a fresh object nobody else holds)
+	K     string   `json:"k"`     // healthy | unhealthy
+	F     []string `json:"f"`     // ReplaceAll: per address "none" | "main" | "backup"
+	Order []int    `json:"order"` // ReplaceAll: the addresses in the order the hosts are passed (empty: ascending)
+	Win   []string `json:"win"`
+	Ret   bool     `json:"ret"`
+	Obs   Obs      `json:"obs"`
 }
 
 // Viol is one failed property predicate, evaluated on the real observations.
@@ -205,7 +206,7 @@ func (d *Driver) Apply(s *Step) (ret, hasRet bool, err error) {
 				leaving = append(leaving, a)
 			}
 		}
-		d.set.ReplaceAll(hs)
+		d.set.ReplaceAll(InOrder(hs, s.Order))
 	case "MarkBegin":
 		var h *host.Host
 		if h, err = d.obj(s.O); err != nil {
@@ -657,4 +658,24 @@ func (d *Driver) ViewCauses() (symptoms, causes []string) {
 		}
 	}
 	return
+}
+
+// InOrder returns hs (one host per address, created in ascending address order) in the order of
+// the model addresses in order; hs itself if order does not name exactly these hosts.
+func InOrder(hs []*host.Host, order []int) []*host.Host {
+	if len(order) != len(hs) {
+		return hs
+	}
+	out := make([]*host.Host, 0, len(hs))
+	for _, a := range order {
+		for _, h := range hs {
+			if h.Addr == AddrOf(a) {
+				out = append(out, h)
+			}
+		}
+	}
+	if len(out) != len(hs) {
+		return hs
+	}
+	return out
 }
